@@ -988,8 +988,10 @@ func compareLogicXEQ(left r.Element, right r.Element) (bool, error) {
 			if len(vla) != len(vra) {
 				return false, nil
 			}
-			// cmp each item
-			for idx := range vla {
+			// cmp each item - in the key order of the left dictionary, so that the
+			// outcome (false or an error of an entry that cannot be compared) does
+			// not depend on Go's map iteration order
+			for _, idx := range vl.GetKeyOrder() {
 				// ensure the key exists on vr
 				vrr, ok := vra[idx]
 				if !ok {
